@@ -4,6 +4,8 @@
 (*    "Jt" "Jf"  j sym      (4 bytes, relocation cb_imm11)   target t / f     *)
 (*    "Lt" "Lf"  jal ra,sym (4 bytes, cbl_imm11)                              *)
 (*    "Xt"       jal x5,sym (4 bytes, cbl_imm11: must not become c.jal)       *)
+(*    "Zt"       jal x0,sym (4 bytes, cbl_imm11: must not become c.jal)       *)
+(*    "Rt"       jal ra,sym (4 bytes, cb_imm11:  must not become c.j)         *)
 (*    "Bt"       jal x0,sym (4 bytes, b_imm20: not relaxable)                 *)
 (*    "N"  c.nop (2 bytes)      "W"  addi x0,x0,0 (4 bytes)                   *)
 (* a section "far" (4 bytes) with the global f at offset 2, and a section     *)
@@ -23,12 +25,12 @@ CONSTANTS Items,      \* item kinds usable in object 1's code
           FullProduct \* TRUE: every t position x every p position; FALSE: each swept with the other fixed
 
 Size(k) == IF k = "N" THEN 2 ELSE 4
-Bytes(k) == CASE k \in {"Jt", "Jf", "Bt"} -> <<111, 0, 0, 0>>            \* 0000006f  jal x0, 0
-              [] k \in {"Lt", "Lf"} -> <<239, 0, 0, 0>>                 \* 000000ef  jal x1, 0
+Bytes(k) == CASE k \in {"Jt", "Jf", "Bt", "Zt"} -> <<111, 0, 0, 0>>      \* 0000006f  jal x0, 0
+              [] k \in {"Lt", "Lf", "Rt"} -> <<239, 0, 0, 0>>           \* 000000ef  jal x1, 0
               [] k = "Xt" -> <<239, 2, 0, 0>>                           \* 000002ef  jal x5, 0
               [] k = "N" -> <<1, 0>>                                    \* 0001      c.nop
               [] k = "W" -> <<19, 0, 0, 0>>                             \* 00000013  addi x0, x0, 0
-RelType(k) == CASE k \in {"Jt", "Jf"} -> "cb_imm11" [] k \in {"Lt", "Lf", "Xt"} -> "cbl_imm11"
+RelType(k) == CASE k \in {"Jt", "Jf", "Rt"} -> "cb_imm11" [] k \in {"Lt", "Lf", "Xt", "Zt"} -> "cbl_imm11"
                 [] k = "Bt" -> "b_imm20" [] OTHER -> ""
 Target(k) == IF k \in {"Jf", "Lf"} THEN 11 ELSE 10                      \* symbol ids: t = 10, f = 11, p = 12
 
